@@ -34,7 +34,7 @@ LEVELS = {
                'Path spelling half: see evidence (unit comparisons of _sanitize_filename).'),
     'C08': _mk('translation_validation', 'duplicate placements against FB.Spec/FB.Impl (sequential part)',
                'Same-level, nested, inside-reused-subtree duplicates with first occurrence cached/rebuilt/failed: RuntimeError, no second invocation, first record/output undisturbed, rejected callers re-executed later. ' + _TIEDESC,
-               'The two-thread clause is not decided yet.'),
+               'Thread clause: all schedules with at most 2 (quick) / 3 (thorough) preemptions of two threads issuing the same build_file path or subbuild key (first cached or not) on the real code, against the sequential outcomes.'),
     'C10': _mk('proof', 'Lean theorems about build_file setup/finish (FB.Spec.bfSetup/bfFinish, shared by FB.Impl) + contract predicates on the real code',
                'Proved for all states: success only if the target is a regular file, failure leaves no file at the target and propagates the same exception (or notCreated), the function starts with the target absent and hidden. ' + _TIEDESC +
                'Real-code predicates right after every call: file present / parents are directories on success, target absent after failure, absolute normalised path passed, target absent at start.',
@@ -55,9 +55,14 @@ LEVELS = {
                'Proved for all values: sanitize yields a value with no tuples, string keys only and distinct keys; is idempotent; rejects exactly the non-JSON values; is_equal is reflexive on sanitized values, equates 1 and 1.0 and lists with tuples, separates bools from numbers. Tie: sanitize/is_equal/to_hashable of /repo agree with FB.Json and with json.loads(json.dumps(v)) on all values up to a size bound over the collision atom set and random deep values; symmetry, transitivity, hashable-iff-equal and freshness are evaluated on the real functions.',
                'symmetry/transitivity/to_hashable_iff are not yet theorems; json module and float repr trusted; NaN excluded.'),
 }
+LEVELS['C09'] = _mk('exploration', 'systematic schedule exploration of the real threaded code under a deterministic cooperative scheduler',
+    'Real threads, one running at a time; yield points at every lock operation and every file-system call of the library (installed from outside). All schedules with at most 1 (quick) / 2 (thorough) preemptions of 14 scenarios (shared new parent directories, sibling directories, failures, stale directories, queries racing builds, subbuilds, three threads, duplicate keys) are executed; return values, tree, createdDirs, what the next unchanged rebuild re-executes and what clean leaves must equal those of some sequential order; deadlock = no runnable thread; observed lock-order edges must be acyclic. '
+    'No Lean protocol model yet (DESIGN 2.2 Conc): this check is exploration, not proof.',
+    'Known finding D7 (BuildDirs arbitration window) is reported as KNOWN-FINDING by signature. What a cooperative scheduler cannot exhibit: preemption inside a bytecode sequence not bracketed by a lock or syscall, the GIL, free-running stress.')
+LEVELS['C17'] = _mk('exploration', 'systematic schedule exploration of a straggler thread against the owner returning, every builder method x builder kind',
+    'For each of 12 builder methods x {root, subbuild, build_file} builder: (a) a call that starts after the owner returned must raise RuntimeError with no effect; (b) every schedule with at most 2 (quick) / 3 (thorough) preemptions of the straggler against the owner: a fenced call must not have run its function, left files or reached the cache, and a call that completed before the close must be in the closed record. No Lean protocol model yet: exploration, not proof.',
+    'Known finding D10 (check-then-act on the finished flag for build_file/subbuild stragglers) is reported as KNOWN-FINDING by signature.')
 NOT_YET = {
-    'C09': 'thread-safety: the atomic-step protocol models (DESIGN 2.2 Conc) and the deterministic scheduler are not built yet',
     'C11': 'aliasing: the heap model and the alias slice are not built yet',
     'C14': 'fault injection at library syscalls is not built yet',
-    'C17': 'finished-builder fence: protocol model and scheduler not built yet',
 }
